@@ -973,9 +973,9 @@ class PeptideVariantGraph():
                             if variant.is_frameshifting():
                                 cur_start_gain.add(variant)
 
-                    stop_index = self.known_orf[1]
-                    stop_lost = target_node.get_stop_lost_variants(stop_index)
-                    cur_start_gain.update(stop_lost)
+                stop_index = self.known_orf[1]
+                stop_lost = target_node.get_stop_lost_variants(stop_index)
+                cur_start_gain.update(stop_lost)
                 cur_cleavage_gain = copy.copy(cleavage_gain)
                 cleavage_gain_down = out_node.get_cleavage_gain_from_downstream()
                 cur_cleavage_gain.extend(cleavage_gain_down)
